@@ -85,6 +85,9 @@ def apply_model(f, op):
         return f.shift(op[1], op[2], op[3], op[4])
     if k == "clear":
         return f.remove_children(op[1])
+    if k == "rename":
+        f.names[op[1]] = op[2]
+        return None
     raise AssertionError(op)
 
 
@@ -108,6 +111,9 @@ def apply_real(nodes, op):
         return nodes[op[1]].shift(nodes[op[2]], Shift.RIGHT if op[3] else Shift.LEFT, sib=op[4])
     if k == "clear":
         return nodes[op[1]].remove_children()
+    if k == "rename":
+        nodes[op[1]].name = op[2]
+        return None
     raise AssertionError(op)
 
 
@@ -182,8 +188,10 @@ def check_queries(ctx, nodes, label, f, names, paths, wit, which=None):
                 return
             ctx.count("query_evaluations", 4)
         for path in paths:
-            got1, exp1 = lab(n.find_single_node_by_path(list(path))), f.find_single_node_by_path(i, path)
-            got2, exp2 = n.find_all_nodes_by_path(list(path)), f.find_all_nodes_by_path(i, path)
+            # (a path is a sequence of names: given as a list or as a tuple - a module-level constant, say)
+            as_given = (lambda p_: list(p_)) if (len(path) + i) % 2 else (lambda p_: tuple(p_))
+            got1, exp1 = lab(n.find_single_node_by_path(as_given(path))), f.find_single_node_by_path(i, path)
+            got2, exp2 = n.find_all_nodes_by_path(as_given(path)), f.find_all_nodes_by_path(i, path)
             if got1 != exp1:
                 ctx.violation("query-differs:find_single_node_by_path", f"path {path} from node {i}: got {got1}, expected {exp1}", wit())
                 return
@@ -402,14 +410,22 @@ def random_history(ctx, n_nodes, n_ops, hist_no):
         ctx.count("histories_with_shared_id_strings")
     nodes, label = fresh_nodes(names, same_id_as)
     names = list(names)
+    prefixes = None
+    if hist_no % 4 == 2:
+        # some nodes carry a namespace prefix (an imported stmml:unit beside an API-made unit): a name is a name
+        prefixes = [rng.choice([None, None, "stmml", "eml"]) for _ in nodes]
+        for x, pf in zip(nodes, prefixes):
+            x.prefix = pf
+        ctx.count("histories_with_prefixed_nodes")
     f = Forest(names)
     qnames = pool + ["zz"]
     history = []
 
     def wit():
-        return {"names": names[:n0], "same_id_as": same_id_as, "history": [list(o) for o in history[:-1]], "op": list(history[-1])}
+        return {"names": names0, "prefixes": prefixes, "same_id_as": same_id_as, "history": [list(o) for o in history[:-1]], "op": list(history[-1])}
 
     n0 = n_nodes
+    names0 = list(names[:n0])
     for step_no in range(n_ops):
         k = rng.random()
         n_nodes = len(nodes)
@@ -453,8 +469,10 @@ def random_history(ctx, n_nodes, n_ops, hist_no):
             c = rng.choice(f.kids[p]) if f.kids[p] and rng.random() < 0.9 else rng.randrange(n_nodes)
             if c != p:
                 op = ("shift", p, c, rng.random() < 0.5, rng.random() < 0.5)
-        else:
+        elif k < 0.985:
             op = ("clear", p)
+        else:
+            op = ("rename", p, rng.choice(pool))       # an element re-typed in place through the name setter
         if op is None:
             continue
         history.append(op)
@@ -583,10 +601,13 @@ def replay(ctx, witness):
         return
     names = list(witness["names"])
     nodes, label = fresh_nodes(names, witness.get("same_id_as"))
+    for x, pf in zip(nodes, witness.get("prefixes") or []):
+        x.prefix = pf
     f = Forest(names)
     qn = sorted(set(names)) + ["zz"]
     paths = [p for j in (0, 1, 2) for p in itertools.product(sorted(set(names)), repeat=j)]
-    monitored = witness.get("same_id_as") is not None or any(o and o[0] == "copy" for o in witness["history"] + [witness["op"]]) or "" in names \
+    monitored = witness.get("prefixes") is not None or any(o and o[0] == "rename" for o in witness["history"] + [witness["op"]]) or \
+        witness.get("same_id_as") is not None or any(o and o[0] == "copy" for o in witness["history"] + [witness["op"]]) or "" in names \
         or "ab" in names
     seq = [tuple(o) for o in witness["history"]] + ([tuple(witness["op"])] if monitored else [])
     for op in seq:
